@@ -59,7 +59,8 @@ template <class A> void diff_dyn(vf::Ctx& c, int archId) {
 		: refmp::mkArr({ refmp::mkStr(std::string(pad, 'p')), tree, refmp::mkStr("sentinel") });
 	Cfg mem; std::string bytes; Outcome so = dyn::save<A>(env, bytes, mem);
 	if (!so.ok()) c.fail("saving a tree failed", so.str());
-	const Cfg sc = stream_cfg(c.src);
+	gen_policies(c.src, mem.opt);   // the same policies for both entry points (Skip makes the readers skip mismatching values of mutated documents)
+	Cfg sc = stream_cfg(c.src); sc.opt.overflowNumberPolicy = mem.opt.overflowNumberPolicy; sc.opt.mismatchedTypesPolicy = mem.opt.mismatchedTypesPolicy;
 	// non-seekable streams can only serve in-order requests (looking up a key that is not the next one needs seekg): they get the
 	// unmodified document, whose schema walk is in order; mutated documents go to seekable streams
 	bool changed = false; std::string doc = sc.streamKind == 2 ? bytes : mutate(c.src, bytes, changed);
@@ -75,6 +76,14 @@ template <class A> void diff_dyn(vf::Ctx& c, int archId) {
 	if (category(o1) != category(o2)) c.fail("memory and stream loading end in different outcome categories", d);
 	if (o1.ok() && (!same_val(t1, t2) || l1.arraysShort != l2.arraysShort || l1.arraysLong != l2.arraysLong || l1.notLoaded != l2.notLoaded)) c.fail("memory and stream loading deliver different values", d + " mem=" + refmp::show(t1).substr(0, 200) + " stream=" + refmp::show(t2).substr(0, 200));
 	if (!changed && o1.ok() && !same_val(t1, env)) c.fail("loaded tree differs from the saved one", d);
+	// the same document loaded into a target of another shape (a freshly generated tree): mismatches are thrown or skipped alike
+	if (sc.streamKind != 2) {
+		Val other = gen_tree(c.src, 2, archId); Val envOther = archId == XML ? refmp::mkMap({ { refmp::mkStr("pad"), refmp::mkStr("") }, { refmp::mkStr("t"), other.t == RT::Arr || other.t == RT::Map ? other : refmp::mkMap({ { refmp::mkStr("v"), other } }) }, { refmp::mkStr("z"), refmp::mkStr("") } }) : refmp::mkArr({ refmp::mkStr(""), other, refmp::mkStr("") });
+		Val u1 = dyn::shape(envOther), u2 = dyn::shape(envOther); dyn::LoadLog m1, m2; Outcome p1 = dyn::load<A>(u1, doc, mem, &m1), p2 = dyn::load<A>(u2, doc, sc, &m2);
+		const std::string d2 = vf::cat(arch_name(archId), " doc-tree=", refmp::show(tree).substr(0, 120), " target-shape=", refmp::show(other).substr(0, 120), " [", sc.str(), "] memory => ", p1.str(), " | stream => ", p2.str());
+		if (category(p1) != category(p2)) c.fail("memory and stream loading into a mismatching target end in different outcome categories", d2);
+		if (p1.ok() && (!same_val(u1, u2) || m1.notLoaded != m2.notLoaded || m1.arraysShort != m2.arraysShort || m1.arraysLong != m2.arraysLong)) c.fail("memory and stream loading into a mismatching target deliver different values", d2 + " mem=" + refmp::show(u1).substr(0, 160) + " stream=" + refmp::show(u2).substr(0, 160));
+	}
 }
 
 std::string gen_cell(vf::Src& s, char sep) {
